@@ -96,12 +96,12 @@ def run(rep):
             return
         if t_[0] == 'alt':
             for c_, v_ in t_[1]:
-                if _is_empty_value(v_):
-                    empties.append(c_)
+                if v_[0] in ('tmpl', 'call', 'path') and _is_empty_value(v_):
+                    empties.append(c_)          # an empty token stream where the item should be (`None` of a filter_map is a selection, judged above)
                 else:
                     item_spine(v_, depth + 1)
-        elif t_[0] == 'opt':
-            empties.append(t_[1])
+        elif t_[0] in ('opt', 'some'):
+            item_spine(t_[-1], depth + 1)
     item_spine(st[3])
     rep.check(not empties, 'C08.filter-formula', 'item-empty-branch', where,
               f'the item of a selected struct is empty under {[E.show(c_, maxdepth=4) for c_ in empties][:2]}: the struct is selected (and referred to elsewhere) but not emitted',
